@@ -12,6 +12,7 @@ import (
 	"github.com/spq/pkappa2/verifx/c03"
 	"github.com/spq/pkappa2/verifx/c07"
 	"github.com/spq/pkappa2/verifx/c14"
+	"github.com/spq/pkappa2/verifx/c04"
 	"github.com/spq/pkappa2/verifx/c05"
 	"github.com/spq/pkappa2/verifx/c08"
 	"github.com/spq/pkappa2/verifx/c15"
@@ -30,6 +31,8 @@ func main() {
 	}
 	var code int
 	switch *prop {
+	case "C04":
+		code = c04.Run(*tier)
 	case "C05":
 		code = c05.Run(*tier)
 	case "C08":
